@@ -510,6 +510,39 @@ def crow(r):
             % (cfu(r['time']), *[clist([cfu(x) for x in r[k]]) for k in ('pos', 'spd', 'acc', 'tq', 'dtq', 'ltq')], flit(r['pwm']), cur))
 
 
+def scales_of(res, n, sc=None, st=None):
+    """per element and recorded variable, the largest finite magnitude gearpy recorded anywhere in the scenario; a net torque is a
+    difference of driving and load torque and takes the larger of the three scales"""
+    rows = list(res.get('rows') or []) + list(res.get('part') or [])
+    for h in res.get('pre') or []:
+        rows += h
+    z = {k: [0.0] * n for k in ('pos', 'spd', 'acc', 'tq', 'dtq', 'ltq')}
+    zc = 0.0
+    for r in rows:
+        for k in z:
+            for i, x in enumerate(r[k][:n]):
+                v = abs(x[0])
+                if v == v and v != float('inf') and v > z[k][i]:
+                    z[k][i] = v
+        if r.get('cur') is not None:
+            v = abs(r['cur'][0])
+            if v == v and v != float('inf'):
+                zc = max(zc, v)
+    if sc is not None and st is not None:
+        # the driving torque is (1 - w/w0) x maximum torque: near the no-load speed it is a small difference of large numbers, exact only
+        # to rounding of the maximum torque (carried down the chain by efficiency x ratio); it is recorded in the maximum torque's unit
+        g = abs(sc['motor']['Tmax'][1])
+        gains = [g]
+        for e in st['elems']:
+            g = g * abs(e['eff'] * e['ratio'])
+            gains.append(g)
+        z['dtq'] = [max(a, b) for a, b in zip(z['dtq'], gains[:n])]
+    z['tq'] = [max(a, b, c) for a, b, c in zip(z['tq'], z['dtq'], z['ltq'])]
+    fl = lambda l: clist([flit(x) for x in l])  # noqa
+    return (f'{{| z_pos := {fl(z["pos"])}; z_spd := {fl(z["spd"])}; z_acc := {fl(z["acc"])}; z_tq := {fl(z["tq"])}; '
+            f'z_dtq := {fl(z["dtq"])}; z_ltq := {fl(z["ltq"])}; z_cur := {flit(zc)} |}}')
+
+
 def case_coq(sc, res):
     m = sc['motor']
     st = res['static']
@@ -542,9 +575,10 @@ def case_coq(sc, res):
         exp = f'(EErr OracleMiss {clist([crow(r) for r in res["part"]])})'
     else:
         exp = f'(EErr {res["err"]} {clist([crow(r) for r in res["part"]])})'
+    zs = scales_of(res, len(sc['elems']) + 1, sc, st)
     return (f'{{| k_chain := {chain}; k_load := {load}; k_pos0 := {cq(sc["pos0"])}; k_spd0 := {cq(sc["spd0"])}; '
             f'k_ops := {clist([cop(o) for o in first_ops])}; k_more := {more}; '
-            f'k_pre := {clist([clist([crow(r) for r in h]) for h in res["pre"]])}; k_expect := {exp} |}}')
+            f'k_pre := {clist([clist([crow(r) for r in h]) for h in res["pre"]])}; k_scales := {zs}; k_expect := {exp} |}}')
 
 
 HEADER = """From Coq Require Import ZArith String List PrimFloat.
